@@ -5649,7 +5649,7 @@ def _leaf_asts_default(pat: _Pattern) -> tp_Set[type[AST]] | None:
         return AST2ASTSLEAF[pat._types]  # will be a single type here
 
     if isinstance(pat, AST):
-        return AST2ASTSLEAF[pat.__class__]
+        return AST2ASTSLEAF[expr_context if isinstance(pat, expr_context) else pat.__class__]  # an expr_context INSTANCE matches any context unless `ctx=True`
 
     if isinstance(pat, str):  # gets here from a subclassed str
         return None
